@@ -93,151 +93,16 @@ func sigString(s []retSig) string {
 // ruleAccessors is C20.R1.
 func ruleAccessors(c *Ctx, rule string) {
 	c.R.Rule(c.R.Property+"."+rule, 16, "the Params accessors agree with each other, with the captured text and with strconv")
-	// terms are taken without inlining: the accessors are specified relative to Get
+	ruleAccessorOutcomes(c, rule)
 	saved := c.O
 	c.O = an.NewOriginator(c.P)
 	c.O.InlineDepth = 0
 	defer func() { c.O = saved }()
-	v := "extract<0>(" + getTerm + ")"
-	found := "extract<1>(" + getTerm + ")"
-	notExists := "call<types.ErrParamNotExists>()"
-	parse := map[string]string{
-		"Int":   "call<strconv.ParseInt>(" + v + ", 10, 64)",
-		"Uint":  "call<strconv.ParseUint>(" + v + ", 10, 64)",
-		"Bool":  "call<strconv.ParseBool>(" + v + ")",
-		"Float": "call<strconv.ParseFloat>(" + v + ", 64)",
-	}
-	zero := map[string]string{"Int": "0", "Uint": "0", "Bool": "false", "Float": "0", "String": `""`}
-	has := func(cond, atom string) bool {
-		for _, a := range strings.Split(cond, "&") {
-			if a == atom {
-				return true
-			}
-		}
-		return false
-	}
-	check := func(name string, judge func(r retSig) string) {
-		f := c.P.MustFunc("types.(*Context)." + name)
-		got := c.accessorReturns(f)
-		var bad []string
-		for _, r := range got {
-			if why := judge(r); why != "" {
-				bad = append(bad, "["+r.cond+"] → "+r.vals+": "+why)
-			}
-		}
-		c.R.Add(rule, c.fk(f), "returns", c.P.Pos(f.Pos()), len(bad) == 0, ifelse(len(bad) == 0, sigString(got), "accessor breaks its contract: "+strings.Join(bad, " ; ")))
-	}
-	check("Exists", func(r retSig) string {
-		if r.vals == found {
-			return ""
-		}
-		return "Exists must return Get's found flag"
-	})
-	strict := func(name, okVals string) {
-		check(name, func(r retSig) string {
-			switch {
-			case r.vals == okVals:
-				if !has(r.cond, "found") {
-					return "the parsed result is returned without the key having been found"
-				}
-			case r.vals == zero[name]+" | "+notExists:
-				if !has(r.cond, "!found") {
-					return "the not-exists error is returned although the key may exist"
-				}
-			default:
-				return "neither the strconv result on the captured text nor (zero, ErrParamNotExists())"
-			}
-			return ""
-		})
-	}
-	strict("String", v+" | nil")
-	for k, p := range parse {
-		strict(k, "extract<0>("+p+") | extract<1>("+p+")")
-	}
-	must := func(name, base string) {
-		viaParse := ""
-		if p, ok := parse[base]; ok {
-			viaParse = "extract<0>(" + p + ")"
-		} else {
-			viaParse = v // MustString
-		}
-		viaSibling := "extract<0>(call<types.(*Context)." + base + ">(recv, param:key))"
-		check(name, func(r retSig) string {
-			switch r.vals {
-			case "param:def":
-				return ""
-			case viaParse:
-				if base == "String" {
-					if !has(r.cond, "found") {
-						return "the captured text is returned without the key having been found"
-					}
-					return ""
-				}
-				if !has(r.cond, "found") || !has(r.cond, "err==nil") {
-					return "the parsed value is returned without found && err == nil"
-				}
-				return ""
-			case viaSibling:
-				if !has(r.cond, "err==nil") {
-					return "the strict sibling's value is returned without err == nil"
-				}
-				return ""
-			}
-			return "neither the default nor the value its strict counterpart returns"
-		})
-		// the default is returned only when the strict sibling fails
-		f := c.P.MustFunc("types.(*Context)." + name)
-		path := (&an.Query{
-			Assume: func(cond ssa.Value) (bool, bool) {
-				if c.O.Of(cond).String() == found {
-					return true, true
-				}
-				x, k, eq, ok := an.CondAtom(cond)
-				if ok && k.Value == nil && isErrorTyped(x) {
-					return eq, true
-				}
-				return false, false
-			},
-			Target: func(t ssa.Instruction) bool {
-				r, ok := t.(*ssa.Return)
-				return ok && c.O.Of(r.Results[0]).String() == "param:def"
-			},
-		}).Search(an.Entry(f))
-		c.R.Add(rule, c.fk(f), "default-only-when-strict-fails", c.P.Pos(f.Pos()), path == nil, ifelse(path == nil, "with the key found and no parse error the default is unreachable", "the default can be returned although the strict counterpart succeeds"))
-	}
-	for _, base := range []string{"String", "Int", "Uint", "Bool", "Float"} {
-		must("Must"+base, base)
-	}
 	// Count
 	cnt := c.P.MustFunc("types.(*Context).Count")
 	got := c.accessorReturns(cnt)
 	good := len(got) == 1 && got[0].vals == "call<builtin:len>(recv.params)"
 	c.R.Add(rule, c.fk(cnt), "returns", c.P.Pos(cnt.Pos()), good, ifelse(good, "len(params)", "Count returns "+sigString(got)))
-	// Get: comma-ok lookup of the key, ("", false) only when the map is nil
-	get := c.P.MustFunc("types.(*Context).Get")
-	okGet := true
-	var whyGet []string
-	for _, r := range an.Returns(get) {
-		v0, v1 := c.O.Of(r.Results[0]).String(), c.O.Of(r.Results[1]).String()
-		switch {
-		case v0 == "extract<0>(lookup(recv.params, param:key))" && v1 == "extract<1>(lookup(recv.params, param:key))":
-		case v0 == `""` && v1 == "false":
-			dom := an.DominatedByEdge(r, func(b *ssa.BasicBlock, succ int) bool {
-				return edgeHas(b, succ, func(cond ssa.Value, truth bool) bool {
-					x, k, eq, ok := an.CondAtom(cond)
-					return ok && k.Value == nil && an.AP(x) == "recv.params" && eq == truth
-				})
-			})
-			if !dom {
-				okGet = false
-				whyGet = append(whyGet, "returns not-found although the map exists")
-			}
-		default:
-			okGet = false
-			whyGet = append(whyGet, "returns ("+v0+", "+v1+")")
-		}
-	}
-	c.R.Add(rule, c.fk(get), "returns", c.P.Pos(get.Pos()), okGet, ifelse(okGet, "the comma-ok lookup of the key (not found on a nil map)", "Get "+strings.Join(whyGet, "; ")))
 	// Set: every path stores (k, v)
 	set := c.P.MustFunc("types.(*Context).Set")
 	isStoreKV := func(in ssa.Instruction) bool {
@@ -247,6 +112,20 @@ func ruleAccessors(c *Ctx, rule string) {
 		}
 		if an.AP(mu.Map) == "recv.params" {
 			return true
+		}
+		// a helper on the same receiver that hands back the (possibly just allocated) parameter map
+		if hc, ok := mu.Map.(*ssa.Call); ok {
+			if g := an.StaticCallee(&hc.Call); g != nil && an.InModule(g) && len(hc.Call.Args) == 1 && an.AP(hc.Call.Args[0]) == "recv" {
+				all := len(an.Returns(g)) > 0
+				for _, r := range an.Returns(g) {
+					if len(r.Results) != 1 || an.AP(an.ReturnValue(r, 0)) != "recv.params" {
+						all = false
+					}
+				}
+				if all {
+					return true
+				}
+			}
 		}
 		if mk, ok := mu.Map.(*ssa.MakeMap); ok {
 			for _, r := range *mk.Referrers() {
@@ -329,4 +208,80 @@ func rulePoolStartsEmpty(c *Ctx, rule string) {
 		}
 	}
 	_ = fmt.Sprint
+}
+
+
+// ruleAccessorOutcomes: the accessors evaluated by the abstract interpreter (absint.go) in every scenario.
+func ruleAccessorOutcomes(c *Ctx, rule string) {
+	parseID := map[string]string{
+		"Int":   "strconv.ParseInt(10,64)",
+		"Uint":  "strconv.ParseUint(10,64)",
+		"Bool":  "strconv.ParseBool()",
+		"Float": "strconv.ParseFloat(64)",
+	}
+	zero := map[string]string{"Int": "CONST:0", "Uint": "CONST:0", "Float": "CONST:0", "Bool": "CONST:false"}
+	scenarios := []scenario{{mapNil: true, errNil: true}, {errNil: true}, {found: true, errNil: true}, {found: true, errNil: false}}
+	expect := func(name string, sc scenario) string {
+		switch name {
+		case "Exists":
+			return ifelse(sc.found, "CONST:true", "CONST:false")
+		case "Get":
+			return ifelse(sc.found, "(V, CONST:true)", `(CONST:"", CONST:false)`)
+		case "String":
+			return ifelse(sc.found, "(V, NIL)", `(CONST:"", ENOTEXIST)`)
+		case "MustString":
+			return ifelse(sc.found, "V", "DEF")
+		}
+		if base := strings.TrimPrefix(name, "Must"); base != name {
+			if sc.found && sc.errNil {
+				return "PVAL:" + parseID[base]
+			}
+			return "DEF"
+		}
+		if sc.found {
+			return "(PVAL:" + parseID[name] + ", " + ifelse(sc.errNil, "NIL", "PERR:"+parseID[name]) + ")"
+		}
+		return "(" + zero[name] + ", ENOTEXIST)"
+	}
+	what := map[string]string{
+		"Exists": "Exists is Get's found flag", "Get": "Get is the comma-ok lookup of the key", "String": "String is the captured text, or the not-exists error",
+		"MustString": "MustString is the captured text when the key exists, the default otherwise",
+	}
+	for _, name := range []string{"Exists", "Get", "String", "MustString", "Int", "MustInt", "Uint", "MustUint", "Bool", "MustBool", "Float", "MustFloat"} {
+		f := c.P.MustFunc("types.(*Context)." + name)
+		var bad []string
+		var okDesc []string
+		for _, sc := range scenarios {
+			got := accessorOutcomes(c, f, sc)
+			want := expect(name, sc)
+			if len(got) == 1 && (got[0] == want || matchesZero(got[0], want)) {
+				okDesc = append(okDesc, want)
+				continue
+			}
+			bad = append(bad, fmt.Sprintf("with %s it returns %s, expected %s", sc, strings.Join(got, " or "), want))
+		}
+		desc := what[name]
+		if desc == "" {
+			if strings.HasPrefix(name, "Must") {
+				desc = name + " is the parsed value exactly when its strict counterpart succeeds, the default otherwise"
+			} else {
+				desc = name + " returns exactly what strconv returns for the captured text, and the not-exists error for an absent key"
+			}
+		}
+		c.R.Add(rule, c.fk(f), "returns", c.P.Pos(f.Pos()), len(bad) == 0, ifelse(len(bad) == 0, desc+" (4 scenarios evaluated)", "accessor breaks its contract: "+strings.Join(bad, " ; ")))
+	}
+}
+
+
+// matchesZero: got equals want once every generic zero value (ZERO) is read as the zero constant expected there.
+func matchesZero(got, want string) bool {
+	if !strings.Contains(got, "ZERO") {
+		return false
+	}
+	for _, z := range []string{"CONST:0", "CONST:false", `CONST:""`, "NIL"} {
+		if strings.ReplaceAll(got, "ZERO", z) == want {
+			return true
+		}
+	}
+	return false
 }
